@@ -358,7 +358,7 @@ Section Lines.
       destruct (Hl k v (or_introl eq_refl)) as [Hk Hv].
       destruct (negb (is_tag (n_tag v) strTag) || kind_mismatch v KScalar)%bool.
       - inversion H; subst. cbn [pe_line]. exact (proj1 (fits_good off v Hv)).
-      - destruct (mem_str (n_value k) seen).
+      - destruct (mem_str (node_value k) seen).
         + inversion H; subst. cbn [pe_line]. exact (proj1 (fits_good off k Hk)).
         + eapply IH; [|exact H]. intros k0 v0 H0. apply Hl. right. exact H0.
     Qed.
@@ -548,7 +548,7 @@ Section Lines.
   Proof.
     induction l as [|[k v] r IH]; intros pe Hl H; cbn [bad_group_label] in H; [discriminate|].
     destruct (Hl k v (or_introl eq_refl)) as [Hk _]. pose proof (proj2 (fits_good 0 k Hk)) as Gk.
-    destruct (negb (lname_ok (n_value k)) || (n_value k =? "__name__"))%bool; [inversion H; subst; exact Gk|].
+    destruct (negb (lname_ok (node_value k)) || (node_value k =? "__name__"))%bool; [inversion H; subst; exact Gk|].
     destruct (negb (lvalue_ok (node_value v))); [inversion H; subst; exact Gk|].
     apply IH; [|exact H]. intros k0 v0 H0. apply Hl. right. exact H0.
   Qed.
